@@ -2,7 +2,7 @@
     specs.REGISTRY["Cxx"] = function(work, args) -> exit code
     specs.MANIFEST["Cxx"] = dict(category=, technique=, text=, note=, ref=)   (collected by gen_manifest.py)
 """
-import json, os, glob, importlib
+import json, os, glob, importlib, time
 import vlib
 from vlib import Infra, log
 
@@ -39,47 +39,81 @@ def graph_property(work, args, *, pid, module, mcmodule, pkg, formulas, mc_cfgs,
         ev["mc_runs"].append(dict(cfg=c["name"], consts=c["consts"], overrides=c.get("overrides"), distinct=r["distinct"],
                                   generated=r["generated"], depth=r["depth"], wall_s=round(r["wall"], 1)))
     # ---- 2. build the harness against /repo's working tree
-    binary = vlib.build(work, pkg)
+    _bin = []
+
+    def get_binary():
+        if not _bin:
+            _bin.append(vlib.build(work, pkg))
+        return _bin[0]
     # ---- 3. generation + replay
     all_traces, init_by_cfg, deviations = [], {}, 0
     ok_by_op = {}
     for c in [c for c in gen_cfgs if tier in c["tiers"]]:
-        cfg = work.path("gen-%s.cfg" % c["name"])
-        vlib.write_cfg(cfg, init="Init", next_="Next", consts=c["consts"], overrides=c.get("overrides"), view="View",
-                       action_constraint="EdgeDump")
-        edges = work.path("gen-%s.out" % c["name"])
-        r = vlib.run_tlc(work, mcmodule + ".tla", cfg, edges, workers=1, timeout=c.get("timeout", 1500))
-        if r["error"] or r["rc"] != 0:
-            raise Infra("generation run %s failed: %s\n%s" % (c["name"], r["error"], r["tail"][-1500:]))
-        log("TLC generation %s: %d distinct states, %.0fs" % (c["name"], r["distinct"], r["wall"]))
-        for h in c["harness"]:
-            tag = "%s-%s" % (c["name"], h.get("chain", "x"))
-            stats, traces = vlib.replay(work, binary, edges, h, tag, shards=c.get("shards", 8),
-                                        rej_sample=c.get("rej_sample", 0), explore=c.get("explore", 4))
+        key = vlib.cache_key(work, module, mcmodule, pkg, c["name"], c["consts"], c.get("overrides"), c["harness"], c.get("shards", 8),
+                             c.get("rej_sample", 0), c.get("explore", 4))
+        hit = vlib.cache_get(key)
+        if hit:
+            cdir, meta = hit
+            log("generation+replay of %s reused from cache (same /repo tree, spec, harness; %d s old)" % (c["name"], time.time() - meta["at"]))
+            per_h = meta["per_harness"]
+            gen_r = meta["gen"]
+        else:
+            cfg = work.path("gen-%s.cfg" % c["name"])
+            vlib.write_cfg(cfg, init="Init", next_="Next", consts=c["consts"], overrides=c.get("overrides"), view="View",
+                           action_constraint="EdgeDump")
+            edges = work.path("gen-%s.out" % c["name"])
+            r = vlib.run_tlc(work, mcmodule + ".tla", cfg, edges, workers=1, timeout=c.get("timeout", 1500))
+            if r["error"] or r["rc"] != 0:
+                raise Infra("generation run %s failed: %s\n%s" % (c["name"], r["error"], r["tail"][-1500:]))
+            log("TLC generation %s: %d distinct states, %.0fs" % (c["name"], r["distinct"], r["wall"]))
+            gen_r = dict(distinct=r["distinct"], generated=r["generated"])
+            init = vlib.first_state(edges)
+            per_h, files = [], []
+            for h in c["harness"]:
+                tag = "%s-%s" % (c["name"], h.get("chain", "x"))
+                stats, traces = vlib.replay(work, get_binary(), edges, h, tag, shards=c.get("shards", 8),
+                                            rej_sample=c.get("rej_sample", 0), explore=c.get("explore", 4))
+                per_h.append(dict(harness=h, tag=tag, stats=stats, traces=[os.path.basename(t) for t in traces], init=init))
+                files += traces
+            vlib.cache_put(key, dict(per_harness=per_h, gen=gen_r), files)
+            cdir = work.dir
+            for f in (edges, edges + ".graph"):
+                if os.path.exists(f):
+                    os.remove(f)
+        for ph in per_h:
+            h, tag, stats, init = ph["harness"], ph["tag"], ph["stats"], ph["init"]
+            traces = [os.path.join(cdir, t) for t in ph["traces"]]
             tot = dict(edges=sum(s["edges"] for s in stats), ok=sum(s["ok"] for s in stats), rej=sum(s["rej"] for s in stats),
                        deviations=sum(s["deviations"] for s in stats), states=stats[0]["states"],
                        graph_ok_edges=stats[0]["graph_ok_edges"], alphabet=stats[0]["alphabet"], depth=max(s["depth"] for s in stats),
                        frontier=stats[0]["frontier"], by_op=stats[0]["by_op"])
+            # by_op of shard 0 only lists what shard 0 executed: merge all shards
+            merged = {}
+            for s_ in stats:
+                for line in s_["by_op"]:
+                    nm = line.split(" ")[0]
+                    okc, rejc = int(line.split("ok=")[1].split(" ")[0]), int(line.split("rej=")[1])
+                    a_, b_ = merged.get(nm, (0, 0))
+                    merged[nm] = (a_ + okc, b_ + rejc)
+            tot["by_op"] = ["%s ok=%d rej=%d" % (k, v[0], v[1]) for k, v in sorted(merged.items())]
             log("replay %s: %d abstract states, %d real transitions executed (%d ok / %d rejected), %d deviations"
                 % (tag, tot["states"], tot["edges"], tot["ok"], tot["rej"], tot["deviations"]))
-            for s in stats:
-                if s.get("first_deviation"):
-                    log("  deviation:", s["first_deviation"][:600])
+            for s_ in stats:
+                if s_.get("first_deviation"):
+                    log("  deviation:", s_["first_deviation"][:600])
                     break
             deviations += tot["deviations"]
-            ev["replay"].append(dict(cfg=c["name"], harness=h, **tot))
-            for s in stats:
-                for smp in s.get("samples") or []:
+            ev["replay"].append(dict(cfg=c["name"], harness=h, cached=bool(hit), **tot))
+            for s_ in stats:
+                for smp in s_.get("samples") or []:
                     if len(ev["samples"]) < 4:
                         ev["samples"].append(smp)
-            init = vlib.first_state(edges)
             for tf in traces:
                 all_traces.append((tf, init, c, h))
-            ev["gen_runs"].append(dict(cfg=c["name"], distinct=r["distinct"], generated=r["generated"]))
+            ev["gen_runs"].append(dict(cfg=c["name"], **gen_r))
             for line in tot["by_op"]:
                 nm, okc = line.split(" ")[0], int(line.split("ok=")[1].split(" ")[0])
                 ok_by_op[nm] = ok_by_op.get(nm, 0) + okc
-        os.remove(edges)
     # vacuity: every operation kind must have been accepted at least once on the real code (over all configs of this run)
     ev["accepted_by_operation"] = ok_by_op
     never = set(never_ok)
@@ -92,7 +126,7 @@ def graph_property(work, args, *, pid, module, mcmodule, pkg, formulas, mc_cfgs,
     # ---- 4. optional recorder (randomized driver beyond the model-checking bounds) + strict trace validation
     rec_info = None
     if recorder and tier in recorder["tiers"]:
-        rec_info = recorder["run"](work, binary)
+        rec_info = recorder["run"](work, get_binary())
         for tf, init, c, h in rec_info["traces"]:
             all_traces.append((tf, init, c, h))
     # ---- 5. TLC evaluates the property's formulas on every recorded real behaviour
